@@ -797,6 +797,18 @@ func (r *replicateChannelManager) waitChannel(sourceInfo *model.SourceCollection
 					r.channelLock.Unlock()
 					continue
 				}
+				// the channel may have been handed out twice (forwardChannel and forwardMsg) or filled in the meantime:
+				// take it only if it still has a free place
+				var hasFreePlace bool
+				if channelHandler.sourceKey {
+					hasFreePlace = r.channelMapping.CheckKeyNotExist(sourceInfo.PChannel, targetChannel)
+				} else {
+					hasFreePlace = r.channelMapping.CheckKeyNotExist(targetChannel, targetInfo.PChannel)
+				}
+				if !hasFreePlace {
+					r.channelLock.Unlock()
+					continue
+				}
 				log.Info("success to get the new replicate channel",
 					zap.Bool("source_key", channelHandler.sourceKey),
 					zap.String("target_pchannel", targetChannel),
